@@ -4,8 +4,10 @@ CONSTANTS Table <- McTable
  Heavy <- McHeavy
  Probe <- McProbe
  MaxIn <- McMaxIn4
+ Dirs <- BothDirs
+ CrossProbe = TRUE
  MaxConns = 2
- ProbeAfter = 4
+ ProbeAfter = 5
  MaxFrameK = 25600
  SlackK = 16384
  C = 256
